@@ -49,6 +49,11 @@ pub fn canon_op(op: &Op) -> Op {
             main_path: main_path.clone(),
             opts: opts.clone(),
         },
+        // the work in between must not matter: the reference is plain staged compilation
+        Op::StagedSplit { src, opts, .. } => Op::Staged {
+            src: src.clone(),
+            opts: opts.clone(),
+        },
         o => o.clone(),
     }
 }
@@ -74,6 +79,7 @@ pub fn ref_plan(op: &Op, env: &Option<String>) -> Plan {
         sentinel: vec![],
         keep_log: false,
         heap_perturb: 0,
+        alloc_yield_mean: 0,
     }
 }
 
